@@ -120,7 +120,13 @@ def run (kv : KV) : String :=
      | none => false) ||
     (if t.ending == .closed then wire == t.out
      else isPrefix (t.out.take t.flushed) wire && isPrefix wire t.out)
-  let aEof := big || !wireObservable || eof == (t.ending == .closed)
+  -- the connection thread is one thing, the socket's write side another: once the request that
+  -- ends the connection has been answered the last writer is gone and the write side is shut down,
+  -- even while the discard of that request's unread body still waits for the client
+  let answeredLast := t.ending == .waiting && (match t.delivered.getLast? with
+    | some d => d.last && d.readEnd != .pending
+    | none => false)
+  let aEof := big || !wireObservable || eof == (t.ending == .closed || answeredLast)
   -- two-phase client: what had arrived when the client stopped to wait must be what the model
   -- says is on the wire after the first phase alone (stream still open)
   let holdN := toNat? (get kv "hold")
@@ -163,7 +169,7 @@ def run (kv : KV) : String :=
     ++ ",hold:" ++ b01 holdOk
     ++ ",alloc:" ++ b01 (!has kv "maxalloc" || decide (toNatD (get kv "maxalloc") ≤ 262144 + 16 * toNatD (get kv "sent") + 8 * wire.length))
   let sub := "heads:" ++ b01 v.heads ++ ",bodies:" ++ b01 v.bodies ++ ",seq:" ++ b01 v.seq ++ ",wire:" ++ b01 v.wire
-    ++ ",eof:" ++ b01 v.eof ++ ",addr:" ++ b01 (v.addr && toNatD (get kv "gone_noaddr") == 0) ++ ",nohang:" ++ b01 (!hang) ++ ",results:" ++ b01 okResults
+    ++ ",eof:" ++ b01 v.eof ++ ",addr:" ++ b01 (v.addr && toNatD (get kv "gone_noaddr") == 0) ++ ",nohang:" ++ b01 (!hang || get kv "i_stall" == "1") ++ ",results:" ++ b01 okResults
     ++ ",dates:" ++ b01 (get kv "dates" == "ok") ++ extra
   -- concurrent handlers: the handlers' event sequence must be an execution of `Lts.Par` whose
   -- submitted bytes are the client's bytes
@@ -200,6 +206,7 @@ def run (kv : KV) : String :=
       ++ (if has kv "werr" then ["werr:1"] else [])
       ++ (if has kv "park" then ["park:" ++ get kv "park"] else [])
       ++ (if get kv "i_holdneed" == "1" then ["holdneed:1"] else [])
+      ++ (if get kv "i_stall" == "1" then ["stall:1"] else [])
       ++ (if (List.range t.delivered.length).any (fun i => (script i).zeroRead) then ["zeroread:1"] else [])
       ++ (if bytes.length > 300000 then ["size:huge"] else [])
       ++ (if t.delivered.any (fun d => (d.readEnd == .err || d.readEnd == .pending) &&
